@@ -157,6 +157,30 @@ def write_replay(pid, issue, extra=None):
     return path
 
 
+GAPS = (31, 61, 301, 3601, 90000)
+
+
+def time_gap_variants(prop, scripts, seed, limit):
+    """Copies of a spread of the multi-frame histories with time passing between frames (runner.adv_frame): the
+    properties quantify over all histories and none of them mentions elapsed time, so the hooked driver's clocks are
+    advanced by up to a day between frames; the model ignores the gap, the implementation must too."""
+    if getattr(prop, "NO_GAPS", False):
+        return []
+    rng = random.Random(seed + 4242)
+    multi = [s for s in scripts if isinstance(s, Script) and len(s.frames) >= 2
+             and not any(runner.adv_seconds(f) is not None for f in s.frames)]
+    if not multi:
+        return []
+    step = max(1, len(multi) // limit)
+    out = []
+    for s in multi[rng.randrange(step)::step][:limit]:
+        frames = list(s.frames)
+        for _ in range(rng.choice((1, 1, 2, 3))):
+            frames.insert(rng.randrange(1, len(frames)), runner.adv_frame(rng.choice(GAPS)))
+        out.append(Script(s.cfg, frames, (s.tag or "") + "+gaps"))
+    return out
+
+
 def main():
     t0 = time.time()
     args = sys.argv[1:]
@@ -211,6 +235,7 @@ def main():
                 list(intensify.capped(prop.generate("thorough", random.Random(seed + 7919))))
         else:
             scripts = list(prop.corpus()) + list(prop.generate(tier, rng))
+        scripts += time_gap_variants(prop, scripts, seed, 60 if tier == "quick" else 400)
     issues, stats = evaluate(prop, scripts, drivers) if scripts else ([], {"frames": 0})
 
     # classify
